@@ -514,14 +514,14 @@ def run(ctx, only=None):
         pfail('both/fresh', 'run(db_file=..., out_dir_base=...) into a fresh directory: the database differs from direct fingerprinting',
               {'inputs': [i['name'] for i in inputs], 'db_rows': None if db1 is None else [o['name'] for o in db1['rows']]})
 
-    def resumed(tag, victims):
+    def resumed(tag, victims, keep_db=False):
         """Delete the outputs of `victims` and the database, re-run.  The known finding is reported only for exactly its
         documented outcome: the new database lacks exactly the rows of the skipped molecules (none written if all skipped)."""
         for v in victims:
             os.remove(os.path.join(base + '2', inputs[v]['name'] + '.fp.bz2'))
         fs0 = [((base + '2', i['name'] + '.fp.bz2'), PG.read_content(os.path.join(base + '2', i['name'] + '.fp.bz2')))
                for k, i in enumerate(inputs) if k not in victims]
-        if os.path.exists(dbf):
+        if os.path.exists(dbf) and not keep_db:       # keep_db: the database file of the EARLIER run is still there (outputs lost, not a crash)
             os.remove(dbf)
         r2 = fpgen.attempt(lambda: G.run(files, db_file=dbf, out_dir_base=base, level=2, bits=1024, first=2, parallel_mode='serial'))
         if r2[0] != 'ok':
@@ -531,7 +531,7 @@ def run(ctx, only=None):
         db2 = load_db(dbf)
         m = 'x_run %s %s %s true' % (cfg_lit(2, False, base, '.fp.bz2', False), PG.fs_lit(fs0), listlit([input_lit(i, l) for i, l in zip(inputs, loops)]))
         key = 'both/' + tag
-        payload = {'inputs': [i['name'] for i in inputs], 'deleted_outputs_of': [inputs[v]['name'] for v in victims],
+        payload = {'inputs': [i['name'] for i in inputs], 'deleted_outputs_of': [inputs[v]['name'] for v in victims], 'db_file_of_earlier_run_kept': keep_db,
                    'db_rows_uninterrupted_run': [o['name'] for o in db1['rows']],
                    'db_rows_resumed_run': None if db2 is None else [o['name'] for o in db2['rows']]}
         ctx.count(('both', tag), True)
@@ -552,7 +552,36 @@ def run(ctx, only=None):
             pfail(key, 'run(db_file=..., out_dir_base=...) re-run after an interruption: the database is neither complete nor the recomputed molecules only',
                   payload)
     resumed('resume', [1])
+    # the database written by the run above is still in place when the outputs of another molecule get lost and the batch is re-run:
+    # what the re-run writes must not depend on the rows an earlier run left in db_file (no row may be stored twice or carried over)
+    resumed('resume-db-kept', [2], keep_db=True)
+    resumed('resume-db-kept-same', [2], keep_db=True)
     resumed('resume-all-skipped', [])
+
+    # =========================================================================== C2. database-only mode, the same batch again into the SAME db_file
+    d = os.path.join(ctx.workdir, 'again')
+    inputs = make_inputs(ctx, d, 3, [], rng, confs=(2,))
+    files = [i['path'] for i in inputs]
+    dbf = os.path.join(d, 'again.fpz')
+    loops = [direct_loop(i['mol'], i['name'], 1024, 2, False, 2, {}) for i in inputs]
+    direct = sorted(sum([multiset([o for k, col in lp[1] for o in col]) for lp in loops], []))
+    cl = cfg_lit(2, False, None, '.fp.bz2', False)
+    for ri, (order_in, ow) in enumerate([([0, 1, 2], False), ([2, 0, 1], False), ([1, 2, 0], True), ([0, 2, 1], False)]):
+        r = fpgen.attempt(lambda: G.run([files[i] for i in order_in], db_file=dbf, level=2, bits=1024, first=2, parallel_mode='serial', overwrite=ow))
+        dbn = load_db(dbf) if r[0] == 'ok' else None
+        key = 'again/%d' % ri
+        payload = {'inputs_in_call_order': [inputs[i]['name'] for i in order_in], 'run_number_into_the_same_db_file': ri + 1, 'overwrite': ow,
+                   'db_rows': None if dbn is None else [o['name'] for o in dbn['rows']], 'run_outcome': r[0] if r[0] == 'ok' else r[1]}
+        ctx.count(('again', ri), True)
+        dist['db_runs'] += 1
+        if r[0] != 'ok' or dbn is None:
+            pfail(key, 'run(db_file=...) number %d into the same database file raised or wrote nothing' % (ri + 1), payload)
+            continue
+        m = 'x_run %s [] %s true' % (cl, listlit([input_lit(inputs[i], loops[i]) for i in order_in]))
+        add_case(key, 'db_eqb (fst (%s)) %s' % (m, db_lit(dbn)), payload, 'fst (%s)' % m)
+        if multiset(dbn['rows']) != direct:
+            pfail(key, 'run(db_file=...) number %d into the same database file: the named fingerprints differ from direct fingerprinting of the batch '
+                       '(the result depends on what an earlier run left in db_file)' % (ri + 1), payload)
 
     # =========================================================================== D. generate_conformers(save=True)
     from e3fp.conformer.generate import generate_conformers
